@@ -1,5 +1,5 @@
 import MuscleModel.Reflector.UpdateProofs
-import MuscleModel.Reflector.MirrorProofs7
+import MuscleModel.Reflector.MirrorProofs17
 
 /-!
 # C04 — A subscriber's mirror of the node tree converges to the server's tree
@@ -25,23 +25,37 @@ subscription entries whose clauses match the node's path, and nothing for ids th
 in the list iff the session is attached, has a positive match count on the node's path (equivalently a mark on the
 node), is not the caller (unless the caller reflects to itself) and the filter transition rule `changeEv` yields that event.
 
+Sections 4–6 (added later; lemmas `Reflector/MirrorProofs8…12.lean`): the invariant over the engine's own op lines
+(`marks_correct_engine`); the structured twin of delivery (`twin_text`, `feedSrv_is_feed`, `delivery_twin`); the
+specification `Matches`/`MirrorOK` with the per-change theorems `step_mirror_overwrite`, `step_mirror_create`,
+`step_mirror_remove_leaf`, the whole-command theorems `step_mirror_set_overwrite` / `step_mirror_set_create`, chaining (`step_chain`) and the replay
+between quiescent points (`converges_partial`).
+
+Section 7 (lemmas `Reflector/MirrorProofs14…17.lean`): no node name contains `/` in any state reached with slash-free
+host names (`CReach`), hence `Unamb` is no longer a hypothesis (`names_unambiguous`); `SyncAll` for PR_COMMAND_SETDATA in
+general (any mix of existing clauses, created inner nodes and a created or overwritten last node: `step_mirror_set`), for
+`setm`, for recursive `RemoveChild` / REMOVEDATA (`step_mirror_rm`), for the departure of another session
+(`step_mirror_detach_other`), and the convergence theorem over steady-state histories (`converges_steady`).
+
 Full statements of the property theorems that are NOT proved (kept for reference):
-  `step_mirror : MReach sv → CmdOK c → NoQuiet → ∀ s, (eventsFedTo s (runCmd sv a c)).foldl applyEv (Matching sv s) = Matching (runCmd sv a c) s`
-  `converges : ∀ history, NoQuiet history → NormalisedSubs history →
-     ∀ session s, replayMirror (deliveredTo s (runAll init history)) = Matching (runAll init history) s`
-where `Matching sv s` = the nodes of the other sessions (of all sessions when `s.reflectSelf`) whose path matches an entry of
-`s.subs` whose filter accepts the node's payload ↦ that payload.  Missing, exactly:
- (a) the tie between `feedSrv`/`nodeChangedAux` on the server state and `feed` on the abstract `Pipe` of
-     `Reflector/Update.lean` (the pending Message of ONE session; `pushAll` flushes every session and also the index
-     Message, and the inbox holds canonical TEXT (`dataText`), so the statement needs the structured twin of the inbox);
- (b) per command class, the list of `changeEvents` along the handler (`setDataClauses`: one per created/overwritten node;
-     `removeChild`: one per node of `removalOrder`; `subscribe`: the `doGetData` snapshot — which goes to the inbox
-     directly, not through `nodeChangedAux`; re-filter: the `ChangeQueryFilterCallback` fold) and the proof that folding
-     `applyEv` over them turns `Matching sv s` into `Matching sv' s` — this needs `marks_correct` (here), the exact
-     `getNode` reads after each primitive (`mr_nodeAt_putKid`, `mr_nodeAt_removeKid`, `mr_refs_data`: here) and the
-     equivalence "positive match count ∧ `changeEv` = set ↔ some entry matches path and filter" (immediate from
-     `pmMatchesPath`), plus the client rule for unsubscribe (the server sends no removals);
- (c) the induction over histories (`converges`), with `batching_invisible` for the flush points.
+  `step_mirror : MReach sv → CmdOK c → ∀ attached s with subscriptions enabled, ∃ evs, Sync s.sid s sv (runCmd sv a c) m evs`
+     for EVERY command class, and
+  `converges : ∀ history from the empty server (attach/detach/runCmd/pushAll/pump), ∀ s attached at the end,
+     replaying every PR_RESULT_DATAITEMS Message delivered to s since it attached gives a mirror m with MirrorOK final s m`.
+Proved command classes: overwrite of an existing node and creation of the last clause of a path whose parent exists (whole
+command `set`); creation of one leaf and removal of one childless node at the level of the primitive the handlers call.  Missing, exactly:
+ (a) the lift of `step_mirror_create` / `step_mirror_remove_leaf` to the whole handlers: `setDataClauses` creating several
+     nodes (a chain of `step_mirror_create`, needs `Unamb` for each created path), `removeChild` over `removalOrder` (a chain
+     of `step_mirror_remove_leaf` preceded by `removeIndexEntry`, which only touches the index and `nextIdx`; needs "every
+     node is childless when its turn comes", i.e. the `removeDescs` lemmas of C13), REMOVEDATA (fold over the traversal's
+     visits), `detach` of another session, `ins`/`setm` (chains of creations / overwrites);
+ (b) subscribe: the `doGetData` snapshot is delivered straight to the inbox by a traversal with `GetDataCallback`, which
+     returns depth 2 on the subscriber's own nodes — C05 has no theorem for that callback; with `indexingPresent` the
+     subscriber's OWN nodes are included although it does not reflect to itself, so `MirrorOK` as stated needs
+     `¬ indexingPresent ∨ reflectSelf` there; re-filter and unsubscribe (client drop rule) likewise not done;
+ (c) `Unamb` as an invariant: it follows from "no node name contains `/`" (`pathString` is then injective), which holds
+     when hosts are given without `/`; not carried through the handlers here — it is an explicit hypothesis;
+ (d) the induction over histories; its shape is `step_chain` + `converges_partial`.
 -/
 
 set_option linter.unusedSimpArgs false
@@ -341,5 +355,305 @@ example : ∀ n, getNode exSv [[105], sidName 1, [97]] = some n → ∀ s ∈ ex
   simp only [Option.map_some, Option.some.injEq] at h1
   rw [← this, h0, h1]
   decide
+
+/-! ## 4. the marking invariant over the engine's own op lines
+
+`LineOK toks` (Reflector/MirrorProofs8.lean): if the line parses to a command (`parseCmd`), the command is `CmdOK` — only
+SUBSCRIBE lines are restricted (`GoodPath`).  `EInv st`: the engine's server state is `MReach` and every command waiting in
+an open batch is `CmdOK`. -/
+
+/-- every state of the engine `srv` on ANY op stream whose lines are `LineOK` (`case` resets, `pump`, `wping`, `attach`,
+    `detach`, `find`, `setm`, batches, queued and direct commands, bad ops, poisoned cases) is `MReach`… -/
+theorem reach_engine (lines : List (List String)) (hl : ∀ toks ∈ lines, LineOK toks) :
+    MReach (lines.foldl (fun st toks => (step st toks).1) ({} : St)).sv :=
+  (einv_engine lines hl).1
+
+/-- …hence carries exactly the right subscriber tables. -/
+theorem marks_correct_engine (lines : List (List String)) (hl : ∀ toks ∈ lines, LineOK toks) {v : List Bytes} {n : Node}
+    (hv : v ≠ []) (hn : getNode (lines.foldl (fun st toks => (step st toks).1) ({} : St)).sv v = some n) :
+    ∀ s ∈ (lines.foldl (fun st toks => (step st toks).1) ({} : St)).sv.sessions,
+      subCount n.subs s.sid = pmMatchCount s.subs v :=
+  (marks_correct (reach_engine lines hl) hv hn).1
+
+/-- what `LineOK` asks, exactly: only a line that parses to a SUBSCRIBE is restricted -/
+theorem lineOK_iff (toks : List String) :
+    LineOK toks ↔ ∀ p f, parseCmd toks = some (.sub p f) → GoodPath (adjustPrefix p (some defaultPrefix)) := by
+  constructor
+  · intro h p f hp; exact h _ hp
+  · intro h c hc
+    cases c <;> first | exact h _ _ hc | trivial
+
+/-! Non-vacuity: a line that is no command is `LineOK` (a reachable state with an accepted SUBSCRIBE: `exSv_reach`). -/
+example : LineOK ["pump"] := by intro c hc; simp [parseCmd] at hc
+
+/-! ## 5. the structured twin of delivery (one session)
+
+`pend s` = the pending PR_RESULT_DATAITEMS Message of `s`; `dataLines s` = the PR_RESULT_DATAITEMS lines of its inbox
+(`isData`: first character `D`; `dataText` produces such lines, `idxText`/`PONG`/`PARAMS`/`MSG` lines do not).
+`auxSess s np d removed` (Reflector/MirrorProofs9.lean) = `NodeChangedAux` on the session record. -/
+
+/-- TWIN.  For the session itself `NodeChangedAux` on the server IS `auxSess` on its record, and `auxSess` IS `feed
+    s.maxItems` on the abstract pipe `⟨pend s, []⟩` of `Reflector/Update.lean`: same pending Message afterwards, the data
+    lines appended to the inbox are exactly the text of the Messages `feed` sends, and nothing else of the session
+    changes (`core`). -/
+theorem twin_text {sv : Server} {sid : Nat} {s : Sess} (hs : sv.sess? sid = some s) (np : Bytes) (d : Option Nat)
+    (removed : Bool) :
+    (nodeChangedAux sv sid np d removed).sess? sid = some (auxSess s np d removed) ∧
+    pend (auxSess s np d removed) = (feed s.maxItems { cur := pend s, sent := [] } (evOf np d removed)).cur ∧
+    dataLines (auxSess s np d removed) =
+      dataLines s ++ (feed s.maxItems { cur := pend s, sent := [] } (evOf np d removed)).sent.map dataText ∧
+    (auxSess s np d removed).core = s.core :=
+  ⟨nodeChangedAux_sess hs np d removed, auxSess_feed s np d removed⟩
+
+/-- …and every OTHER session is untouched or flushed (`pushSess`: pending Message → inbox). -/
+theorem twin_other {sv : Server} {sid t : Nat} {x : Sess} (hx : sv.sess? t = some x) (ht : t ≠ sid) (np : Bytes)
+    (d : Option Nat) (removed : Bool) :
+    (nodeChangedAux sv sid np d removed).sess? t = some x ∨
+    (nodeChangedAux sv sid np d removed).sess? t = some (pushSess x) :=
+  nodeChangedAux_other hx ht np d removed
+
+/-- `PipeStep sid sv sv' evs`: `sid` keeps identity and parameters, receives structured Messages `sent` whose text is what
+    was appended to its data lines, and the view of a client that applies everything sent and then the pending Message
+    advances by exactly `evs` (this is `batching_invisible`'s invariant, `view_feed`, on the server state).
+    `feedSrv` is one event for its session and an extra flush (or nothing) for the others; `pushAll` is an extra flush;
+    `NotifySubscribersThatNodeChanged` feeds `sid` the events `changeEvents` holds for it. -/
+theorem feedSrv_is_feed (sv : Server) (sid : Nat) (ev : Ev) :
+    PipeStep sid sv (feedSrv sv sid ev) [ev] ∧
+    (∀ t, t ≠ sid → PipeStep t sv (feedSrv sv sid ev) []) ∧
+    (∀ t, PipeStep t sv (pushAll sv) []) :=
+  ⟨pipeStep_feed_self sv sid ev, fun t ht => pipeStep_feed_other sv ht ev, fun t => pipeStep_pushAll t sv⟩
+
+theorem delivery_twin (sid : Nat) (sv : Server) (by_ : Nat) (names : List Bytes) (node : Node)
+    (od : Option (Option Nat)) (removed : Bool) :
+    PipeStep sid sv (notifyChanged sv by_ names node od removed)
+      (evsFor sid (changeEvents sv by_ names node od removed)) :=
+  pipeStep_notifyChanged sid sv by_ names node od removed
+
+/-- what `PipeStep` says, spelled out -/
+theorem pipeStep_def (sid : Nat) (sv sv' : Server) (evs : List Ev) :
+    PipeStep sid sv sv' evs ↔
+      ∀ s, sv.sess? sid = some s → ∃ s' sent, sv'.sess? sid = some s' ∧ s'.core = s.core ∧
+        dataLines s' = dataLines s ++ sent.map dataText ∧
+        ∀ m, applyMsg (applyMsgs m sent) (pend s') = evs.foldl applyEv (applyMsg m (pend s)) := Iff.rfl
+
+/-! ## 6. the specification and the steady-state steps
+
+`visible s v`: the node at `v` is not one of `s`'s own, or `s` reflects to itself.  `Matches sv s p d`: a node below the
+root whose path string is `p`, visible to `s`, matched by an entry of `s.subs` whose filter accepts its payload, has payload
+`d`.  `MirrorOK sv s m := ∀ p d, m p = some d ↔ Matches sv s p d` (nothing missing, stale or extra).
+`Unamb sv v`: no other existing node has the path string of `v` (true when no node name contains `/`).
+`Sync sid s sv sv' m evs := PipeStep sid sv sv' evs ∧ (MirrorOK sv s m → MirrorOK sv' s (evs.foldl applyEv m))`. -/
+
+theorem sync_def (sid : Nat) (s : Sess) (sv sv' : Server) (m : Mirror) (evs : List Ev) :
+    Sync sid s sv sv' m evs ↔
+      (PipeStep sid sv sv' evs ∧ (MirrorOK sv s m → MirrorOK sv' s (evs.foldl applyEv m))) := Iff.rfl
+
+/-- the caller test of `NotifySubscribersThatNodeChanged` is `visible` for every node of the caller's subtree
+    (session-node names are injective in the id: `sidName_inj`) -/
+theorem caller_test_is_visible {sv : Server} {a sid : Nat} {sa s : Sess} (hsa : sv.sess? a = some sa)
+    (hs : sv.sess? sid = some s) (w : List Bytes) :
+    (sid ≠ a ∨ bySelfOf sv a = true) ↔ visible s (sessNames sa ++ w) = true :=
+  caller_visible hsa hs w
+
+/-- OVERWRITE.  `SetData(d)` on the existing node at `v`, then the notification with the old payload. -/
+theorem step_mirror_overwrite {sv : Server} (hk : MK sv) {v : List Bytes} (hv : v ≠ []) {n0 : Node}
+    (hn0 : getNode sv v = some n0) (d : Option Nat) (hu : Unamb sv v)
+    {sid : Nat} {s : Sess} (hs : sv.sess? sid = some s) (hen : s.subsEnabled = true) (by_ : Nat)
+    (hcaller : (sid ≠ by_ ∨ bySelfOf sv by_ = true) ↔ visible s v = true) (m : Mirror) :
+    Sync sid s sv
+      (notifyChanged (setNode sv v (fun n => n.setData d)) by_ v (n0.setData d) (some n0.data) false) m
+      (evsFor sid (changeEvents (setNode sv v (fun n => n.setData d)) by_ v (n0.setData d) (some n0.data) false)) :=
+  sync_overwrite hk hv hn0 d hu hs hen by_ hcaller m
+
+/-- CREATION of a leaf (what `PutChild` + the created-notification do; `parent.length < fuelDepth`: the model has no
+    `MUSCLE_MAX_NODE_DEPTH` check, a node created at depth 111 would be notified but is invisible to `getNode`). -/
+theorem step_mirror_create {sv : Server} (hk : MK sv) (parent : List Bytes) (child : Node) (hleaf : child.kids = [])
+    {p : Node} (hp : getNode sv parent = some p) (hkid : findKid child.name p.kids = none)
+    (hlen : parent.length < fuelDepth)
+    (hu1 : Unamb (setNode sv parent (fun q => q.setKids (putKid (child.setSubs (marksForNewNode sv (parent ++ [child.name])))
+      q.kids))) (parent ++ [child.name]))
+    {sid : Nat} {s : Sess} (hs : sv.sess? sid = some s) (hen : s.subsEnabled = true) (by_ : Nat)
+    (hcaller : (sid ≠ by_ ∨ bySelfOf sv by_ = true) ↔ visible s (parent ++ [child.name]) = true) (m : Mirror) :
+    Sync sid s sv
+      (notifyChanged (setNode sv parent (fun q => q.setKids (putKid
+        (child.setSubs (marksForNewNode sv (parent ++ [child.name]))) q.kids))) by_ (parent ++ [child.name])
+        (child.setSubs (marksForNewNode sv (parent ++ [child.name]))) none false) m
+      (evsFor sid (changeEvents (setNode sv parent (fun q => q.setKids (putKid
+        (child.setSubs (marksForNewNode sv (parent ++ [child.name]))) q.kids))) by_ (parent ++ [child.name])
+        (child.setSubs (marksForNewNode sv (parent ++ [child.name]))) none false)) :=
+  sync_create hk parent child hleaf hp hkid hlen hu1 hs hen by_ hcaller m
+
+/-- REMOVAL of a childless node: the notifying part of `RemoveChild` (`removeOneRest`: removed-notification first, then
+    the node leaves the tree; `removeOne = removeOneRest ∘ removeIndexEntry`, C13 `log_replay_removeOne`). -/
+theorem step_mirror_remove_leaf {sv : Server} (hti : TreeInv sv) (hk : MK sv) (parent : List Bytes) (key : Bytes)
+    {c : Node} (hc : getNode sv (parent ++ [key]) = some c) (hleaf : c.kids = []) (hu : Unamb sv (parent ++ [key]))
+    {sid : Nat} {s : Sess} (hs : sv.sess? sid = some s) (hen : s.subsEnabled = true) (by_ : Nat)
+    (hcaller : (sid ≠ by_ ∨ bySelfOf sv by_ = true) ↔ visible s (parent ++ [key]) = true) (m : Mirror) :
+    Sync sid s sv (removeOneRest sv by_ true parent key) m
+      (evsFor sid (changeEvents sv by_ (parent ++ [key]) c (some c.data) true)) :=
+  sync_removeRest hti hk parent key hc hleaf hu hs hen by_ hcaller m
+
+/-- WHOLE COMMAND: PR_COMMAND_SETDATA by session `a` on a path of its own subtree whose node exists (`pathClauses path` = the
+    `/`-split of the path without empty clauses: `a//b` means `a/b`).  For EVERY attached
+    session `sid` with subscriptions enabled (the sender included): its pipe is fed exactly the listed events and a
+    mirror that was right before is right afterwards. -/
+theorem step_mirror_set_overwrite {sv : Server} (h : MReach sv) {a : Nat} {sa : Sess} (hsa : sv.sess? a = some sa)
+    (path : Bytes) (hpath : ∀ c r, path = c :: r → c ≠ cSlash) (hne : pathClauses path ≠ []) (x : Nat) {n0 : Node}
+    (hn : getNode sv (sessNames sa ++ pathClauses path) = some n0)
+    (hu : Unamb sv (sessNames sa ++ pathClauses path))
+    {sid : Nat} {s : Sess} (hs : sv.sess? sid = some s) (hen : s.subsEnabled = true) (m : Mirror) :
+    Sync sid s sv (runCmd sv a (.set path x false)) m
+      (evsFor sid (changeEvents (setNode sv (sessNames sa ++ pathClauses path) (fun n => n.setData (some x))) a
+        (sessNames sa ++ pathClauses path) (n0.setData (some x)) (some n0.data) false)) :=
+  sync_set_overwrite (mkt_reach h).2 hsa path hpath hne (some x) hn hu hs hen m
+
+/-- WHOLE COMMAND: PR_COMMAND_SETDATA by session `a` on a path whose parent node exists and whose last clause does not
+    (the node is created with the payload; `PutChild` without notification, then the created-notification). -/
+theorem step_mirror_set_create {sv : Server} (h : MReach sv) {a : Nat} {sa : Sess} (hsa : sv.sess? a = some sa)
+    (cls : List Bytes) (cl : Bytes) (path : Bytes) (hpath : ∀ c r, path = c :: r → c ≠ cSlash)
+    (hsp : pathClauses path = cls ++ [cl]) (x : Nat) {p : Node}
+    (hp : getNode sv (sessNames sa ++ cls) = some p) (hkid : findKid cl p.kids = none)
+    (hlen : (sessNames sa ++ cls).length < fuelDepth)
+    (hu1 : Unamb (putChild sv a (sessNames sa ++ cls) (Node.fresh cl (some x)) false) (sessNames sa ++ cls ++ [cl]))
+    {sid : Nat} {s : Sess} (hs : sv.sess? sid = some s) (hen : s.subsEnabled = true) (m : Mirror) :
+    Sync sid s sv (runCmd sv a (.set path x false)) m
+      (evsFor sid (changeEvents (putChild sv a (sessNames sa ++ cls) (Node.fresh cl (some x)) false) a
+        (sessNames sa ++ cls ++ [cl])
+        ((Node.fresh cl (some x)).setSubs (marksForNewNode sv (sessNames sa ++ cls ++ [cl]))) none false)) :=
+  sync_set_create_last (mkt_reach h).2 hsa cls cl path hpath hsp (some x) hp hkid hlen hu1 hs hen m
+
+/-- steps chain, a push is an empty step -/
+theorem step_chain {sid : Nat} {s : Sess} {a b c : Server} {m : Mirror} {e1 e2 : List Ev}
+    (h1 : Sync sid s a b m e1) (h2 : Sync sid s b c (e1.foldl applyEv m) e2) :
+    Sync sid s a c m (e1 ++ e2) ∧ Sync sid s c (pushAll c) ((e1 ++ e2).foldl applyEv m) [] :=
+  ⟨h1.trans h2, sync_pushAll sid s c _⟩
+
+/-- `converges`, the part that is proved: for ANY chain of `Sync` steps between two quiescent points (nothing pending for
+    `sid` before and after — e.g. after `pushAll`: `pend_after_pushAll`), what was appended to the PR_RESULT_DATAITEMS lines
+    of the inbox is the text of structured Messages `sent`, and the client that applies them one Message at a time
+    (removals first, then sets) turns a right mirror into a right mirror.  Missing for the full `converges`: `Sync` for
+    the remaining command classes (see the header) and the induction over the history. -/
+theorem converges_partial {sid : Nat} {s : Sess} {sv sv' : Server} {m : Mirror} {evs : List Ev}
+    (h : Sync sid s sv sv' m evs) (hs : sv.sess? sid = some s) (hq : pend s = {})
+    (hq' : ∀ s', sv'.sess? sid = some s' → pend s' = {}) :
+    ∃ s' sent, sv'.sess? sid = some s' ∧ s'.core = s.core ∧ dataLines s' = dataLines s ++ sent.map dataText ∧
+      applyMsgs m sent = evs.foldl applyEv m ∧ (MirrorOK sv s m → MirrorOK sv' s (applyMsgs m sent)) :=
+  replay_of_sync h hs hq hq'
+
+/-! Non-vacuity of `step_mirror_set_overwrite` on `exSv` (session 1 owns `/i/1/a` = 5, session 0 subscribes to `a`): every
+hypothesis holds for the sender `a = 1`, the path `a`, and the subscriber `sid = 0`. -/
+theorem exSv_paths : (descendants fuelDepth exSv.root []).map (·.1) =
+    [[[104]], [[104], [48]], [[105]], [[105], [49]], [[105], [49], [97]]] := by decide +kernel
+
+theorem exSv_unamb : Unamb exSv [[105], [49], [97]] := by
+  intro w hw hsome
+  obtain ⟨n, hn⟩ := Option.isSome_iff_exists.1 hsome
+  by_cases hw0 : w = []
+  · subst hw0; exact absurd hw (by decide)
+  · have hmem := (mr_mem_descendants fuelDepth exSv.root [] w n
+      (mr_kidsNodup_of_allNodes _ _ (mkt_reach exSv_reach).1)).2 ⟨hw0, hn⟩
+    have : w ∈ (descendants fuelDepth exSv.root []).map (·.1) :=
+      List.mem_map.2 ⟨(w, n), by simpa using hmem, rfl⟩
+    rw [exSv_paths] at this
+    simp only [List.mem_cons, List.not_mem_nil, or_false] at this
+    rcases this with rfl | rfl | rfl | rfl | rfl
+    all_goals first | rfl | exact absurd hw (by decide)
+
+example : ∃ sa s n0, exSv.sess? 1 = some sa ∧ exSv.sess? 0 = some s ∧ s.subsEnabled = true ∧
+    sessNames sa ++ pathClauses [97] = [[105], [49], [97]] ∧
+    getNode exSv (sessNames sa ++ pathClauses [97]) = some n0 ∧ n0.data = some 5 := by
+  have h1 : (exSv.sess? 1).isSome = true := by decide +kernel
+  have h0 : (exSv.sess? 0).isSome = true := by decide +kernel
+  obtain ⟨sa, hsa⟩ := Option.isSome_iff_exists.1 h1
+  obtain ⟨s, hs⟩ := Option.isSome_iff_exists.1 h0
+  have hen : (exSv.sess? 0).map (·.subsEnabled) = some true := by decide +kernel
+  have hnm : (exSv.sess? 1).map (fun sa => sessNames sa ++ pathClauses [97]) = some [[105], [49], [97]] := by decide +kernel
+  have hd : (getNode exSv [[105], [49], [97]]).map (·.data) = some (some 5) := by decide +kernel
+  rw [hs] at hen; rw [hsa] at hnm
+  simp only [Option.map_some, Option.some.injEq] at hen hnm
+  cases hn : getNode exSv [[105], [49], [97]] with
+  | none => rw [hn] at hd; cases hd
+  | some n0 =>
+    rw [hn] at hd
+    simp only [Option.map_some, Option.some.injEq] at hd
+    exact ⟨sa, s, n0, hsa, hs, hen, hnm, by rw [hnm]; exact hn, hd⟩
+
+/-! ## 7. steady-state commands in general; convergence over steady-state histories
+
+`CReach sv` (Reflector/MirrorProofs14.lean) = `MReach sv` with every `attach` host name free of `/`.  `NS sv`: no node name
+contains `/` (path clauses are split at `/`, generated names are `I<n>`, session-node names are decimal).  `Inv sv` =
+`TreeInv sv ∧ MK sv ∧ NS sv`.  `SetOK path`: 2 + number of non-empty clauses ≤ 110 (the model has no
+`MUSCLE_MAX_NODE_DEPTH` check).  `SyncAll sv sv'`: for EVERY attached session with subscriptions enabled and every mirror
+`m` there are events `evs` with `Sync` (its pipe is fed exactly `evs`; `MirrorOK` before ⇒ `MirrorOK` after applying them).
+`SyncFor sid` is the same for the one subscriber `sid`. -/
+
+theorem creach_inv {sv : Server} (h : CReach sv) : Inv sv := h.inv
+
+/-- in a `CReach` state every existing node's path string belongs to no other existing node -/
+theorem names_unambiguous {sv : Server} (h : CReach sv) {v : List Bytes} {n : Node} (hn : getNode sv v = some n) :
+    Unamb sv v :=
+  h.ns.unamb (h.ns.names hn)
+
+theorem syncAll_def (sv sv' : Server) :
+    SyncAll sv sv' ↔ ∀ sid s, sv.sess? sid = some s → s.subsEnabled = true → ∀ m, ∃ evs, Sync sid s sv sv' m evs := Iff.rfl
+
+/-- PR_COMMAND_SETDATA without flags, ANY sender, ANY path within the depth bound (existing clauses are walked, missing
+    inner nodes are created without payload, the last node is created or overwritten): every enabled subscriber stays
+    right, and the invariants are kept. -/
+theorem step_mirror_set {sv : Server} (h : Inv sv) (a : Nat) (path : Bytes) (hok : SetOK path) (x : Nat) :
+    SyncAll sv (runCmd sv a (.set path x false)) ∧ Inv (runCmd sv a (.set path x false)) := by
+  obtain ⟨s1, g1⟩ := syncAll_set h.2 a path hok x
+  exact ⟨s1, treeInv_runCmd a _ h.1, g1⟩
+
+/-- `setm`: several payloads set one after the other WITHOUT a push in between. -/
+theorem step_mirror_setm {sv : Server} (h : Inv sv) (a : Nat) (path : Bytes) (hok : SetOK path) (vs : List Nat) :
+    SyncAll sv (vs.foldl (fun sv v => runCmd sv a (.set path v false)) sv) :=
+  (syncAll_setm h.2 a path hok vs).1
+
+/-- PR_COMMAND_REMOVEDATA (wildcards, nested subtrees: `RemoveChild(recurse)` takes every matched subtree apart children
+    first), ANY sender. -/
+theorem step_mirror_rm {sv : Server} (h : Inv sv) (a : Nat) (keys : List Bytes) :
+    SyncAll sv (runCmd sv a (.rm keys)) ∧ Inv (runCmd sv a (.rm keys)) :=
+  syncAll_removeData h a keys
+
+/-- departure of ANOTHER session `t`: its subtree goes away with notifications, an emptied host node too. -/
+theorem step_mirror_detach_other {sv : Server} (h : Inv sv) (t : Nat) {sid : Nat} (hne : sid ≠ t) :
+    SyncFor sid sv (detach sv t) :=
+  syncFor_detach h t hne
+
+/-- `Steady sid`: histories made of SETDATA (no flags; `SetOK`), REMOVEDATA, pushes and departures of sessions other than
+    `sid`, by any senders in any order (`setm` and BATCHes of these are such histories: `steady_setm`). -/
+theorem steady_step {sid : Nat} {sv sv' : Server} (hst : Steady sid sv sv') (h : Inv sv) :
+    SyncFor sid sv sv' ∧ Inv sv' :=
+  steady_sync hst h
+
+/-- CONVERGENCE, steady state (`converges_partial` instantiated).  From a state with the invariants (every `CReach` state:
+    `creach_inv`) in which subscriber `sid` has nothing pending and holds a right mirror `m`, through ANY steady history,
+    to a state in which it has nothing pending again (e.g. after a push): what was appended to the PR_RESULT_DATAITEMS
+    lines of its inbox is the text of structured Messages `sent`, and the client that applies them in order — removals
+    first, then sets, per Message — holds a right mirror: no matching node missing, none stale, none extra.
+    NOT covered (so `converges` in full is still open): histories containing SUBSCRIBE / re-filter / unsubscribe of `sid`
+    itself (the `doGetData` snapshot needs a traversal theorem for `GetDataCallback`), arrivals, INSERTORDEREDDATA /
+    SETDATA with the index flag, and the parameter commands of `sid`. -/
+theorem converges_steady {sid : Nat} {sv sv' : Server} (hst : Steady sid sv sv') (h : Inv sv) {s : Sess}
+    (hs : sv.sess? sid = some s) (hen : s.subsEnabled = true) (hq : pend s = {})
+    (hq' : ∀ s', sv'.sess? sid = some s' → pend s' = {}) (m : Mirror) (hm : MirrorOK sv s m) :
+    ∃ s' sent, sv'.sess? sid = some s' ∧ s'.core = s.core ∧ dataLines s' = dataLines s ++ sent.map dataText ∧
+      MirrorOK sv' s' (applyMsgs m sent) :=
+  converges_steady_core hst h hs hen hq hq' m hm
+
+/-! Non-vacuity: `exSv` is `CReach`; the path `a` is `SetOK`; "session 1 sets `a` to 6 and 7 (`setm`), removes `*`, then a
+push, then session 1 departs" is a steady history for subscriber 0 starting in `exSv`. -/
+theorem exSv_creach : CReach exSv :=
+  .cmd 0 _ goodPath_a (.cmd 1 _ trivial (.attach 1 [105] (by decide) (.attach 0 [104] (by decide) .init)))
+
+theorem setOK_a : SetOK [97] := by
+  unfold SetOK
+  have : (pathClauses [97]).length = 1 := by decide
+  rw [this]; decide
+
+example : Steady 0 exSv (detach (pushAll (runCmd ([6, 7].foldl (fun sv v => runCmd sv 1 (.set [97] v false)) exSv) 1
+    (.rm [[42]]))) 1) :=
+  .trans (steady_setm 0 1 [97] setOK_a [6, 7] exSv) (.trans (.rm 1 [[42]]) (.trans .push (.detach 1 (by decide))))
 
 end Muscle.Props.C04
